@@ -137,6 +137,8 @@ def make_model(kind, seed):
             dsteps = F(8, 5)        # less than two steps as a number, two steps after rounding
         elif seed % 4 == 3:
             dsteps = F(7, 4)
+        elif seed % 4 == 2:
+            dsteps = F(7, 5)        # rounds to ONE step: neglected, as on a scalar edge
         conns.append(Conn('a/li/x', 'b/o1/u', Wm(nb, na), delay=DT * dsteps))
         conns.append(Conn('b/o1/x', 'a/li/u', Wm(na, nb)))
     elif kind == 'delay2':
